@@ -253,6 +253,20 @@ def compile_cases(cases, render, opts=None, chunk=1500):
     return out, errs
 
 
+def replay_known(chk, prop, opts=None):
+    """Replay every open known finding of `prop` verbatim against the real code: still failing -> KNOWN-FINDING line."""
+    for f in known_findings(prop):
+        r = real_compile(f['input'], **(opts or dict(minify=True)))
+        if f.get('expect_error'):
+            still = not (r[0] == 'err' and any(c in ('CompilationError', 'SyntaxError') for c in r[3]))
+        else:
+            still = not (r[0] == 'ok' and f['expected_fragment'] in r[1])
+        if still:
+            chk.known('%s: %s (input %r gives %s)' % (f.get('id', '?'), f['what'], f['input'], r[1] if r[0] == 'ok' else list(r[1:3])))
+        else:
+            chk.cov.setdefault('known_findings_no_longer_failing', []).append(f.get('id'))
+
+
 def tie_verdict(chk, build, missing, disagreements, what, searched):
     """Common ending: a broken proof obligation / driver / correspondence with no failing input found."""
     if chk.violations:
